@@ -307,6 +307,10 @@ def check_read_loop(rep, key, L, R, parents, inner_ids):
     for p in reversed(parents):
         if p.get("k") == "match" and any(x is R for x in hir.walk(p["scrut"], False)):
             for a in p["arms"]:
+                if a.get("guard") is not None:
+                    continue        # a guarded arm decides nothing about a 0-byte read when its guard is false
+                if not pat_is_zero(a["pat"]) and "Ok" in describe_pat(a["pat"]):
+                    break           # a 0-byte read reaches the data arm: the count must be tested later (form b)
                 if pat_is_zero(a["pat"]) and leaves_loop(a["body"], L.get("id"), inner_ids):
                     rep.ok("SRV-2", key, construct, detail="arm `%s` of the match on the read leaves the loop" %
                            describe_pat(a["pat"]), where=hir.where(R))
